@@ -2,7 +2,7 @@
 Require Extraction.
 Require Import ExtrOcamlBasic.
 From Gokrb5.lib Require Import Bytes JV.
-From Gokrb5.model Require Import Keytab CCache GSSToken Crypto GSSVerify PAData Replay Network APReq Spnego HttpClient KDCRep DER DERCodec ClientSM Krb5Conf Hosts.
+From Gokrb5.model Require Import Keytab CCache GSSToken Crypto GSSVerify PAData Replay Network APReq Spnego HttpClient KDCRep DER DERCodec ClientSM Krb5Conf Hosts LenOctets Flags Framing.
 Extraction "model.ml" jv
   kt_unmarshal_j kt_marshal_j kt_getkey_j
   wrap_marshal_j wrap_unmarshal_j mic_marshal_j mic_unmarshal_j wrap_verify_j mic_verify_j
@@ -11,4 +11,7 @@ Extraction "model.ml" jv
   cc_unmarshal_j cc_getentry_j cc_contains_j cc_getentries_j cc_client_j
   client_run_j new_as_req_j referrals_j
   c16_parse_j c16_resolve_j c16_bool_j c16_dur_j c16_etypes_j c16_auf_j c16_rso_j c16_getkdcs_j c16_getkpasswd_j
-  der_encode_j der_decode_j der_len_j parse_len_j enc_int_j dec_int_j enc_time_j dec_time_j.
+  der_encode_j der_decode_j der_len_j parse_len_j enc_int_j dec_int_j enc_time_j dec_time_j
+  marshal_len_j get_length_j len_hdr_bytes_j add_app_tag_j
+  set_flag_j unset_flag_j is_flag_set_j is_flag_set_orig_j kdc_options_widen_j
+  choice_encode_j choice_decode_j gss_frame_j gss_unframe_j krb5_token_j krb5_untoken_j.
